@@ -259,7 +259,7 @@ def replay(data):
         wd = os.path.join(scratch.mkdtemp("l1r"), "run")
         old = os.getcwd()
         try:
-            res = l1._guard(lambda ch: l1.run_history(spec, data["choices"], data["n_events"], [ProbObserver()], wd))(None)
+            res = l1._guard(lambda ch: l1.run_history(spec, data["choices"], data["n_events"], [ProbObserver()], wd, ops=data.get("ops")))(None)
         finally:
             os.chdir(old)
         return [(res.sig, res.msg)] if isinstance(res, l1.Violation) else []
